@@ -51,6 +51,7 @@ def tie_skeleton(ctx, broken, specs_faults, name, need_det_ok=True):
     ctx.coverage["traces_validated_against_impl"] = ctx.coverage.get("traces_validated_against_impl", 0) + len(cases) - len(bad)
     nev = sum(len(P["iters"]) for _, P in out if P is not None and P.get("iters"))
     ctx.coverage["loop_iterations_compared"] = ctx.coverage.get("loop_iterations_compared", 0) + nev
+    ctx.bad_traces = getattr(ctx, "bad_traces", []) + [trs[idx[b]] for b in bad]
     if not good:
         where = [trs[idx[b]]["spec"] for b in bad[:2]] if bad else []
         broken.append((f"correspondence:skeleton:{name}", f"model and optimize() differ on {len(bad)} runs, e.g. {where} {log[-300:]}"))
@@ -360,3 +361,27 @@ def generic_replay(ctx, rp, mons):
         bad |= bool(m)
     print("exc:", tr.get("exc"), "result:", tr.get("result"))
     return 1 if bad else 0
+
+
+def truncate_search(ctx, mon, extra_specs=()):
+    """Directed search for a concrete failing input: for every run on which model and code differ, re-run the same
+    problem with the budget cut at each loop iteration's func_count (so the run ends right where the behaviours may
+    have diverged) and with max_iter cut likewise; apply the monitor to each truncated run."""
+    plan = []
+    for tr in getattr(ctx, "bad_traces", [])[:4]:
+        spec = tr["spec"]
+        fcs = sorted({e[2]["fc"] for e in tr.get("events", []) if e[0] == "probe"})
+        its = sorted({e[1]["poll_iteration"] for e in tr.get("events", []) if e[0] == "probe"})
+        for fc in fcs[:16]:
+            o = dict(spec.get("options", {}), max_fun_evals=int(fc))
+            plan.append((dict(spec, options=o), tr.get("fault")))
+            o2 = dict(spec.get("options", {}), max_fun_evals=int(fc) + 1)
+            plan.append((dict(spec, options=o2), tr.get("fault")))
+        for it in its[:8]:
+            o = dict(spec.get("options", {}), max_iter=int(it) + 1)
+            plan.append((dict(spec, options=o), tr.get("fault")))
+    plan += [(s, None) for s in extra_specs]
+    if not plan:
+        return False
+    out = [(tr, None) for tr in S.traces(plan, "trunc")]
+    return apply_monitor(ctx, out, mon) > 0
